@@ -62,24 +62,26 @@ prop(
 
 prop(
     "C03",
-    rules=["C03-R1", "C03-R7", "X-EXT@resolver", "X-EXT@view", "X-EXT@borrow", "C03-R3", "C03-R4", "C03-R5", "C03-R2", "C03-R8"],
-    mir_rules=[S.rule_entity_resolver, S.rule_direct_resolver, S.rule_extent, E.rule_layout, E.rule_id_bits_inert, E.rule_version_opaque, E.rule_conversions, X.rule_unchecked_inventory, SP.rule_unchecked_conversions],
-    floors={"C03-R1": lambda c: 4 * n_storages(c), "C03-R7": lambda c: 2 * n_storages(c), "C03-R8": 10},
+    rules=["C03-R1", "C03-R7", "X-EXT@resolver", "X-EXT@view", "X-EXT@borrow", "C03-R3", "C03-R4", "C03-R5", "C03-R2", "C03-R8", "C03-R9"],
+    mir_rules=[S.rule_entity_resolver, S.rule_direct_resolver, S.rule_extent, E.rule_layout, E.rule_id_bits_inert, E.rule_version_opaque, E.rule_conversions, X.rule_unchecked_inventory, SP.rule_unchecked_conversions, X.rule_assumes],
+    floors={"C03-R9": 20, "C03-R1": lambda c: 4 * n_storages(c), "C03-R7": lambda c: 2 * n_storages(c), "C03-R8": 10},
     explanation="Static analysis. Decides: C03-R1/R7 every unchecked read whose index derives from a key is dominated by the exact bounds guard against the extent of the array it indexes "
     "and by the generation / free-bit guard before slot contents are used as an index; X-EXT extents match the arrays; "
     "C03-R2 who may use unchecked operations: every unchecked operation (by class: pointer arithmetic, unchecked indexing, raw deref, raw-parts, pointer moves, drop-in-place, allocator, assume-hints, transmute, call of a named unsafe fn) occurs only in a function family that the reviewed table lists for that class, where a named rule discharges it; private helpers count as part of the reviewed functions that call them; C03-R3/R4/R5 generation numbers are only compared, widths and the 8 id bits agree and the id bits never reach an index; "
-    "C03-R8 a dynamic handle becomes a typed one (TryFrom / from_any, both handle kinds) only on the path guarded by id(key) == A::ARCHETYPE_ID, so a handle of another archetype never reaches a typed resolver.",
+    "C03-R8 a dynamic handle becomes a typed one (TryFrom / from_any, both handle kinds) only on the path guarded by id(key) == A::ARCHETYPE_ID, so a handle of another archetype never reaches a typed resolver; "
+    "C03-R9 every assumption (debug_checked_assume!: unreachable_unchecked in release) has the form of a reviewed invariant with its constant on the safe side (x.0 < C for TrimmedIndex with C >= MAX_DATA_CAPACITY, len <= C with C >= 2^24, len < len+1, resolved dense <= len).",
     not_decided="memory safety in states where I1-I4 do not hold; no sanitizer-style evidence is produced",
 )
 
 prop(
     "C08",
-    rules=["C08-R2", "C08-R3", "C08-R5", "C01-R3", "C08-R4", "C14-R7"],
-    mir_rules=[S.rule_version_next, S.rule_creator, S.rule_slot_primitives, S.rule_remover, S2.rule_populate, S2.rule_ctor, E.rule_layout, E.rule_conversions],
+    rules=["C08-R2", "C08-R3", "C08-R5", "C01-R3", "C08-R4", "C14-R7", "C01-R5"],
+    mir_rules=[S.rule_version_next, S.rule_creator, S.rule_slot_primitives, S.rule_remover, S2.rule_populate, S2.rule_ctor, S2.rule_grower, E.rule_layout, E.rule_conversions],
     floors={"C08-R2": 2, "C08-R3": lambda c: 5 * n_storages(c), "C08-R5": 3},
     explanation="Static analysis. Decides: C08-R2 the successor generation is checked_add(1) with a panic and no value on overflow (default) resp. wrapping_add(1) mapped away from zero (wrapping_version); "
     "C08-R3 a created handle carries the popped slot index, that slot's current generation and the storage's own A::ARCHETYPE_ID, and is the value stored and returned; "
-    "C01-R3 every removal bumps the released slot's generation; C08-R5 generations are never reset.",
+    "C01-R3 every removal bumps the released slot's generation; C08-R5 generations are never reset; C01-R5 growth threads exactly the never-used tail [len, new capacity) into the free list with the start generation and assign() never touches a generation "
+    "(re-threading a live or used position would hand out its first generation a second time).",
     not_decided="I4 (the free list yields each free position once) over histories; reuse after wraparound in the wrapping_version build is the documented exception",
 )
 
@@ -175,7 +177,7 @@ prop(
 
 prop(
     "C05",
-    rules=["C05-R1", "C05-R2", "C05-R3", "C05-R4", "C05-R5", "C05-R7", "C05-R6", "C05-R8"],
+    rules=["C05-R1", "C05-R2", "C05-R3", "C05-R4", "C05-R5", "C05-R7", "C05-R6", "C05-R8", "C05-R9"],
     static_rules=[T.rule_sibling_helpers, CP.rule_query_corpus],
     static_floors={'C05-R6': 1, 'C05-R8': 150},
     mir_rules=[M.rule_bind_query_params, M.rule_contains_component, M.rule_bind_one_of, M.rule_generators, SP.rule_find_dispatch, SP.rule_iter_loops],
@@ -185,7 +187,7 @@ prop(
     "C05-R3 bind_one_of loops all members, second hit is an error, returns the unique hit; C05-R4 each generator emits per archetype iff bound_params.get(&name) is Some and errors when nothing matched. "
     "Sampled part: static analysis of the specimen expansions against an independent matcher (hand-written from the specimen declaration). Decides: C05-R7 for each of 26 query sites over 5 macros, the set of world fields walked / match arms present "
     "equals the set of archetypes the matcher computes (components, OneOf with exactly one hit, typed entity parameters, cfg-disabled parameters); C05-R5 each find arm fetches from the archetype of its own variant, "
-    "the closure only runs inside .map of that fetch, and the fall-through arm returns None without running a closure. "
+    "the closure only runs inside .map of that fetch, and the fall-through arm returns None without running a closure; C05-R9 an iter expansion ends only by Break or after the loop of every matched archetype was entered and exhausted (no early way out that skips later matched archetypes). "
     "Compile-time witnesses (E4, generated): C05-R8 a seeded corpus of generated (world, query) programs over five worlds with overlapping, prefix-named component sets and all five query macros (quick 600, thorough 6000 queries): rustc's type checker decides that the closure body "
     "is instantiated for exactly the oracle's archetypes (an `impl Seen<MatchedArchetype>` per copy of the body against a `Seen<A0>+Seen<A1>..` bound for the iter family; an `Allowed` marker bound for over-matching in all five), that each parameter has its own column's type "
     "(OneOf through an associated type chosen by the oracle), and that empty match sets and ambiguous OneOf are rejected with the generator's message. The oracle is written from the property text.",
@@ -217,7 +219,7 @@ prop(
 
 prop(
     "C15",
-    rules=["C15-R1", "C15-R2", "C15-R3", "C15-R4", "C15-R7", "C16-R4", "C15-R6", "C15-R8"],
+    rules=["C15-R1", "C15-R2", "C15-R3", "C15-R4", "C15-R7", "C16-R4", "C15-R6", "C15-R8", "C15-R5"],
     static_rules=[T.rule_template_shapes, CP.rule_id_corpus],
     static_floors={'C15-R6': 1, 'C15-R8': 400},
     mir_rules=[M.rule_advance_id, M.rule_dataworld, SP.rule_tables],
@@ -227,7 +229,7 @@ prop(
     "components get a fresh map and previous=None inside each archetype iteration, cfg-disabled items are skipped before id assignment; C15-R4 DataArchetype.id/DataComponent.id are the ids just assigned. "
     "Sampled: C15-R7 the evaluated ARCHETYPE_ID/COMPONENT_ID/NUM_ARCHETYPES constants of the specimen equal an independent oracle. "
     "Compile-time witnesses (E4, generated): C15-R8 every assignment of {implicit, 0, 1, 5, 254, 255} to 3 (thorough: also 4) archetypes and to 3 (4) components is compiled with `const _: () = assert!(..)` on ARCHETYPE_ID, ArchetypeHas::COMPONENT_ID, ecs_component_id! and NUM_ARCHETYPES "
-    "against an independent re-statement of the discriminant rule; declarations with a duplicate id or counting past 255 must be rejected with the generator's message (quick 432, thorough 3024 declarations).",
+    "against an independent re-statement of the discriminant rule; declarations with a duplicate id or counting past 255 must be rejected with the generator's message (quick 432, thorough 3024 declarations); C15-R5 an id literal of 255 is accepted as written, literals above 255 are rejected.",
     not_decided="token emission of the ids (quote! interpolation) is witnessed on the specimen constants, not proved for all declarations",
 )
 
@@ -263,15 +265,16 @@ prop(
 
 prop(
     "C19",
-    rules=["C19-R1", "C19-R2", "C19-R3", "C19-R4", "C19-R5", "C19-R6"],
+    rules=["C19-R1", "C19-R2", "C19-R3", "C19-R4", "C19-R5", "C19-R6", "C19-R7"],
     static_rules=[T.rule_cfg_inventory],
     static_floors={"C19-R1": 15, "C19-R2": 20, "C19-R6": 3},
-    mir_rules=[X.rule_debug_checks, S.rule_version_next],
-    floors={"C19-R3": 1},
+    mir_rules=[X.rule_debug_checks, S.rule_version_next, X.rule_assumes],
+    floors={"C19-R3": 1, "C19-R7": 20},
     explanation="Static analysis. Decides: C19-R1 every cfg/cfg_attr attribute and cfg!() invocation in both crates (token-level, including inside macro_rules bodies) uses one of the documented predicates (the three features, debug_assertions, doc) and emitted templates only repeat the user's own predicate -- sites are neither counted nor keyed by position; "
     "C19-R2 each gated region is confined by the rule of its predicate class wherever it sits: `events` gates mention only the event logs and assign no core field, `wrapping_version` gates contain only the successor computation (wrapping_add(1) / checked_add(1)) and both polarities are paired per function, `32_components` gates are the 17..=32 twins of the ungated instantiations; "
     "C19-R3 (G-DBG) every debug_assert* region of gecs (found on the CFG by its `if cfg!(debug_assertions)` switch) is effect free: no store through a pointer, no mutable borrow of state, only calls without write effect -- so assertions on/off cannot change state; "
     "C19-R4 every rule of every other property is evaluated in each analysed configuration (quick: 3, thorough: all 16) and a rule instance that fails in some configurations but not in others is reported here; C19-R5 the wrapping next() has neither a panic nor an unchecked operation, "
-    "generations are only compared (C03-R3); C19-R6 Cargo feature wiring (events forwards to gecs_macros/events only).",
+    "generations are only compared (C03-R3); C19-R6 Cargo feature wiring (events forwards to gecs_macros/events only); "
+    "C19-R7 every debug_checked_assume! (a panic with debug assertions, unreachable_unchecked without) is implied by a reviewed invariant with its constant on the safe side, so the two profiles cannot diverge on a legal value.",
     not_decided="no run-time behaviour is compared across configurations; the claim is as strong as the per-property structural claims",
 )
